@@ -281,6 +281,7 @@ Variable v : variant.
 Variable c : config.
 Variable N : list string.     (* dApp names used by the history *)
 Variable Us : list string.    (* user accounts used by the history *)
+Variable k : Z.               (* ukex the module account holds beyond the recorded bonds (its balance before the history) *)
 
 (* the store iteration of one dApp's bonds returns exactly that dApp's bonds: true for every name in
    the repaired tree; in the unchanged tree only when no name is a prefix of another name ++ user *)
@@ -304,7 +305,7 @@ Definition op_in (o : op) : Prop :=
 Record Inv (st : state) : Prop := mkInv {
   i_uniq : uniq (dapps st);
   i_sum : forall n d, find_dapp n (dapps st) = Some d -> d_status d = 0 -> d_total d = sum_bonds n (bonds st);
-  i_held : sum_totals (dapps st) <= bal MOD UKEX (led st);
+  i_held : sum_totals (dapps st) + k = bal MOD UKEX (led st);
   i_max : forall n d, find_dapp n (dapps st) = Some d -> d_status d = 0 -> d_total d <= max_thr c;
   i_bonds : forall e, In e (bonds st) ->
             In (fst (fst e)) N /\ In (snd (fst e)) Us /\ 0 <= snd e /\ find_dapp (fst (fst e)) (dapps st) <> None;
@@ -313,6 +314,7 @@ Record Inv (st : state) : Prop := mkInv {
 
 Hypothesis Hsep : separated.
 Hypothesis Hus : users_ok.
+Hypothesis Hk : 0 <= k.
 
 Lemma sum_totals_nonneg ds : (forall x, In x ds -> 0 <= d_total x) -> 0 <= sum_totals ds.
 Proof.
@@ -350,6 +352,7 @@ Lemma create_inv st u priv foreign n amt p st' :
   /\ (forall u', u' <> MOD -> bal u' UKEX (led st') = bal u' UKEX (led st) - if String.eqb u' u then amt else 0).
 Proof.
   intros I (Hu & Hn & Hpf & Hamt & Hlp & Hmax) H. unfold create in H. rewrite Hpf in H.
+  destruct (negb (v_fee_unchecked v) && ((p_fee p <? 0) || (PREC <? p_fee p)))%bool eqn:CF; [discriminate|].
   destruct (negb (v_create_negative v) && (amt <? 0))%bool eqn:C0; [discriminate|].
   destruct (negb priv && foreign)%bool eqn:C1; [discriminate|].
   destruct (negb priv && (amt * 100 <? min_thr c))%bool eqn:C2; [discriminate|].
@@ -836,9 +839,9 @@ Proof.
 Qed.
 
 Definition empty_state (l : ledger) : state := mkState 0 [] [] l.
-Lemma Inv_empty l : 0 <= bal MOD UKEX l -> Inv (empty_state l).
+Lemma Inv_empty l : bal MOD UKEX l = k -> Inv (empty_state l).
 Proof.
-  intros H. constructor; simpl; try (intros; discriminate); try tauto; try exact H. constructor.
+  intros H. constructor; simpl; try (intros; discriminate); try tauto; [constructor|unfold sum_totals; simpl; lia].
 Qed.
 
 (* signed amount an accepted user message moves from the user's account into the bond record (n, u) *)
@@ -915,19 +918,19 @@ Proof.
 Qed.
 
 (* ================================================================ a failed bootstrap refunds everybody *)
-Lemma failed_bootstrap_refund v c N Us st d :
-  separated v N Us -> users_ok Us -> Inv c N Us st ->
+Lemma failed_bootstrap_refund v c N Us k st d :
+  separated v N Us -> users_ok Us -> 0 <= k -> Inv c N Us k st ->
   find_dapp (d_name d) (dapps st) = Some d -> d_status d = 0 -> d_total d < min_thr c ->
   (v_zero_blocks v = false \/ forall u a, In (d_name d, u, a) (bonds st) -> 0 < a) ->
   exists st', finish v c d st = Ok st'
     /\ find_dapp (d_name d) (dapps st') = None
     /\ (forall e, In e (bonds st') -> fst (fst e) <> d_name d)
     /\ (forall u, u <> MOD -> bal u UKEX (led st') = bal u UKEX (led st) + bond_amt (d_name d) u (bonds st))
-    /\ Inv c N Us st'.
+    /\ Inv c N Us k st'.
 Proof.
-  intros Hs Hu I F S Hmin G. destruct (refund_succeeds v c N Us Hs Hu st _ d I F S G) as [st' R].
+  intros Hs Hu Hk I F S Hmin G. destruct (refund_succeeds v c N Us k Hs Hu Hk st _ d I F S G) as [st' R].
   exists st'. unfold finish. assert (X : (d_total d <? min_thr c) = true) by lia. rewrite X, R.
-  destruct (refund_spec v c N Us Hs Hu st _ d st' I F S R) as (I' & _ & Hd & Hb & Hbal & _).
+  destruct (refund_spec v c N Us k Hs Hu st _ d st' I F S R) as (I' & _ & Hd & Hb & Hbal & _).
   split; [reflexivity|]. split; [rewrite Hd, find_remove, String.eqb_refl; reflexivity|]. split; [|split; [exact Hbal|exact I']].
   intros e He. rewrite Hb in He. apply filter_In in He. destruct He as [_ He]. apply negb_true_iff in He.
   unfold of_dapp in He. now apply String.eqb_neq in He.
@@ -949,11 +952,14 @@ Proof. eexists. vm_compute. repeat split; reflexivity. Qed.
 (* a bonder who reclaimed everything leaves a zero record behind; the refund of the others then fails *)
 Definition w_zero : list op :=
   [OCreate rU0 false false "aa" 20000 (rp "lp/aa"); OBond rU1 "aa" false 500; OReclaim rU1 "aa" false 500; OTick 2000].
+Definition w_zero_final : state := Eval vm_compute in run as_is rcfg w_zero rst0.
+Lemma w_zero_run : run as_is rcfg w_zero rst0 = w_zero_final.
+Proof. vm_cast_no_check (eq_refl w_zero_final). Qed.
 Lemma w_zero_ok :
   let st := run as_is rcfg w_zero rst0 in
   exists d, find_dapp "aa" (dapps st) = Some d /\ d_status d = 0 /\ d_total d < min_thr rcfg
             /\ bal rU0 UKEX (led st) = 2000000000 - 20000 /\ now st = 2000.
-Proof. eexists. vm_compute. repeat split; reflexivity. Qed.
+Proof. cbv zeta. rewrite w_zero_run. unfold w_zero_final. eexists. repeat split; try reflexivity. Qed.
 
 (* "ab" is a prefix of "abc": the failed bootstrap of "ab" also pays out the bonders of "abc", whose
    records and total stay -- the module no longer holds the recorded bond of "abc" *)
@@ -990,26 +996,26 @@ Variable N Us : list string.
 Hypothesis Hsep : separated v N Us.
 Hypothesis Hus : users_ok Us.
 
-Lemma history_inv ops l : 0 <= bal MOD UKEX l -> Forall (op_in v c N Us) ops -> Inv c N Us (run v c ops (empty_state l)).
-Proof. intros Hl Ho. apply (run_inv v c N Us Hsep Hus); [now apply Inv_empty|exact Ho]. Qed.
+Lemma history_inv ops l : 0 <= bal MOD UKEX l -> Forall (op_in v c N Us) ops -> Inv c N Us (bal MOD UKEX l) (run v c ops (empty_state l)).
+Proof. intros Hl Ho. apply (run_inv v c N Us _ Hsep Hus); [now apply Inv_empty|exact Ho]. Qed.
 
 Lemma total_is_sum ops l : 0 <= bal MOD UKEX l -> Forall (op_in v c N Us) ops ->
   forall n d, find_dapp n (dapps (run v c ops (empty_state l))) = Some d -> d_status d = 0 ->
   d_total d = sum_bonds n (bonds (run v c ops (empty_state l))).
-Proof. intros Hl Ho. apply (i_sum _ _ _ _ (history_inv ops l Hl Ho)). Qed.
+Proof. intros Hl Ho. apply (i_sum _ _ _ _ _ (history_inv ops l Hl Ho)). Qed.
 
 Lemma total_max ops l : 0 <= bal MOD UKEX l -> Forall (op_in v c N Us) ops ->
   forall n d, find_dapp n (dapps (run v c ops (empty_state l))) = Some d -> d_status d = 0 -> d_total d <= max_thr c.
-Proof. intros Hl Ho. apply (i_max _ _ _ _ (history_inv ops l Hl Ho)). Qed.
+Proof. intros Hl Ho. apply (i_max _ _ _ _ _ (history_inv ops l Hl Ho)). Qed.
 
 Lemma bond_held ops l : 0 <= bal MOD UKEX l -> Forall (op_in v c N Us) ops ->
-  sum_totals (dapps (run v c ops (empty_state l))) <= bal MOD UKEX (led (run v c ops (empty_state l))).
-Proof. intros Hl Ho. apply (i_held _ _ _ _ (history_inv ops l Hl Ho)). Qed.
+  sum_totals (dapps (run v c ops (empty_state l))) + bal MOD UKEX l = bal MOD UKEX (led (run v c ops (empty_state l))).
+Proof. intros Hl Ho. apply (i_held _ _ _ _ _ (history_inv ops l Hl Ho)). Qed.
 
-Lemma deposits_minus_reclaims ops st : Inv c N Us st -> Forall (op_in v c N Us) ops -> forallb is_user_op ops = true ->
+Lemma deposits_minus_reclaims k ops st : Inv c N Us k st -> Forall (op_in v c N Us) ops -> forallb is_user_op ops = true ->
   (forall n u, bond_amt n u (bonds (run v c ops st)) = bond_amt n u (bonds st) + net_flow v c ops st n u)
   /\ (forall u, u <> MOD -> bal u UKEX (led (run v c ops st)) = bal u UKEX (led st) - net_out v c ops st u).
-Proof. apply (bonds_follow_flows v c N Us Hsep Hus). Qed.
+Proof. apply (bonds_follow_flows v c N Us k Hsep Hus). Qed.
 
 (* the refund at the end of block, for any state reached by a history *)
 Lemma refund_after_history ops l d :
@@ -1023,7 +1029,7 @@ Lemma refund_after_history ops l d :
     /\ (forall u, u <> MOD -> bal u UKEX (led st') = bal u UKEX (led st) + bond_amt (d_name d) u (bonds st)).
 Proof.
   intros Hl Ho st F S M G.
-  destruct (failed_bootstrap_refund v c N Us st d Hsep Hus (history_inv ops l Hl Ho) F S M G) as (st' & A & B & C & D & _).
+  destruct (failed_bootstrap_refund v c N Us _ st d Hsep Hus Hl (history_inv ops l Hl Ho) F S M G) as (st' & A & B & C & D & _).
   exists st'. auto.
 Qed.
 End Statements.
@@ -1092,7 +1098,7 @@ Variable c : config.
 Hypothesis Hfix : fixed v.
 
 Lemma fixed_inv ops l : 0 <= bal MOD UKEX l -> Forall wf_op ops ->
-  Inv c (names_of ops) (users_of ops) (run v c ops (empty_state l)).
+  Inv c (names_of ops) (users_of ops) (bal MOD UKEX l) (run v c ops (empty_state l)).
 Proof.
   intros Hl W. destruct Hfix as (F1 & F2 & F3). apply history_inv; auto.
   - now apply repaired_separated.
@@ -1103,15 +1109,15 @@ Qed.
 Lemma total_is_sum_fixed ops l : 0 <= bal MOD UKEX l -> Forall wf_op ops ->
   forall n d, find_dapp n (dapps (run v c ops (empty_state l))) = Some d -> d_status d = 0 ->
   d_total d = sum_bonds n (bonds (run v c ops (empty_state l))).
-Proof. intros Hl W. apply (i_sum _ _ _ _ (fixed_inv ops l Hl W)). Qed.
+Proof. intros Hl W. apply (i_sum _ _ _ _ _ (fixed_inv ops l Hl W)). Qed.
 
 Lemma total_max_fixed ops l : 0 <= bal MOD UKEX l -> Forall wf_op ops ->
   forall n d, find_dapp n (dapps (run v c ops (empty_state l))) = Some d -> d_status d = 0 -> d_total d <= max_thr c.
-Proof. intros Hl W. apply (i_max _ _ _ _ (fixed_inv ops l Hl W)). Qed.
+Proof. intros Hl W. apply (i_max _ _ _ _ _ (fixed_inv ops l Hl W)). Qed.
 
 Lemma bond_held_fixed ops l : 0 <= bal MOD UKEX l -> Forall wf_op ops ->
-  sum_totals (dapps (run v c ops (empty_state l))) <= bal MOD UKEX (led (run v c ops (empty_state l))).
-Proof. intros Hl W. apply (i_held _ _ _ _ (fixed_inv ops l Hl W)). Qed.
+  sum_totals (dapps (run v c ops (empty_state l))) + bal MOD UKEX l = bal MOD UKEX (led (run v c ops (empty_state l))).
+Proof. intros Hl W. apply (i_held _ _ _ _ _ (fixed_inv ops l Hl W)). Qed.
 
 Lemma refund_fixed ops l d : 0 <= bal MOD UKEX l -> Forall wf_op ops ->
   let st := run v c ops (empty_state l) in
@@ -1122,7 +1128,7 @@ Lemma refund_fixed ops l d : 0 <= bal MOD UKEX l -> Forall wf_op ops ->
     /\ (forall u, u <> MOD -> bal u UKEX (led st') = bal u UKEX (led st) + bond_amt (d_name d) u (bonds st)).
 Proof.
   intros Hl W st F S M. destruct Hfix as (F1 & F2 & F3).
-  destruct (failed_bootstrap_refund v c (names_of ops) (users_of ops) st d) as (st' & A & B & C & D & _); auto.
+  destruct (failed_bootstrap_refund v c (names_of ops) (users_of ops) (bal MOD UKEX l) st d) as (st' & A & B & C & D & _); auto.
   - now apply repaired_separated.
   - now apply wf_users_ok.
   - now apply fixed_inv.
@@ -1141,12 +1147,12 @@ Proof.
   assert (Hk : users_ok Us) by now apply wf_users_ok.
   assert (Hall : Forall (op_in v c N Us) (pre ++ ops)) by (apply wf_ops_in; auto; apply incl_refl).
   apply Forall_app in Hall. destruct Hall as [Hp Ho].
-  apply (bonds_follow_flows v c N Us Hs Hk); auto. apply history_inv; auto.
+  apply (bonds_follow_flows v c N Us (bal MOD UKEX l) Hs Hk); auto. apply history_inv; auto.
 Qed.
 End Fixed.
 
 Lemma repaired_fixed : fixed repaired.
 Proof. repeat split. Qed.
 (* the tree now: every repair but the one of the upsert proposal handler *)
-Lemma current_fixed : fixed (mkVariant false false false false false true).
+Lemma current_fixed : fixed (mkVariant false false false false false true true).
 Proof. repeat split. Qed.
